@@ -23,10 +23,11 @@ import (
 type c13EffSrc struct {
 	fset  *token.FileSet
 	funcs map[string]*ast.FuncDecl // "Recv.Name"
+	plain map[string]*ast.FuncDecl // package-level functions
 }
 
 func c13EffParse() (*c13EffSrc, error) {
-	src := &c13EffSrc{fset: token.NewFileSet(), funcs: map[string]*ast.FuncDecl{}}
+	src := &c13EffSrc{fset: token.NewFileSet(), funcs: map[string]*ast.FuncDecl{}, plain: map[string]*ast.FuncDecl{}}
 	names, err := filepath.Glob(filepath.Join(repoRoot(), "*.go"))
 	if err != nil {
 		return nil, err
@@ -43,6 +44,8 @@ func c13EffParse() (*c13EffSrc, error) {
 		for _, d := range f.Decls {
 			if fd, ok := d.(*ast.FuncDecl); ok && fd.Recv != nil && len(fd.Recv.List) == 1 {
 				src.funcs[c13RecvName(fd.Recv.List[0].Type)+"."+fd.Name.Name] = fd
+			} else if ok && fd.Recv == nil {
+				src.plain[fd.Name.Name] = fd
 			}
 		}
 	}
@@ -259,6 +262,71 @@ func (src *c13EffSrc) getter(name string) string {
 	return "⟨[" + strings.Join(snapshot, ", ") + "], " + hit + ", [" + strings.Join(stores, ", ") + "]⟩"
 }
 
+// tagLoop translates DeleteNodesWithTag(node, tag): what the loop ranges over (a copy of the child
+// list made before the loop, or the list itself), its test and its body.
+func (src *c13EffSrc) tagLoop() string {
+	q := strconv.Quote
+	fd := src.plain["DeleteNodesWithTag"]
+	if fd == nil || fd.Body == nil || fd.Type.Params == nil || len(fd.Type.Params.List) != 2 ||
+		len(fd.Type.Params.List[0].Names) != 1 || len(fd.Type.Params.List[1].Names) != 1 {
+		return "⟨.bad \"DeleteNodesWithTag not found\", .bad \"\", []⟩"
+	}
+	node, tag := fd.Type.Params.List[0].Names[0].Name, fd.Type.Params.List[1].Names[0].Name
+	stmts := fd.Body.List
+	over := ""
+	copyVar := ""
+	if len(stmts) == 2 {
+		if as, ok := stmts[0].(*ast.AssignStmt); ok && len(as.Lhs) == 1 && len(as.Rhs) == 1 && as.Tok == token.DEFINE {
+			if id, ok := as.Lhs[0].(*ast.Ident); ok && printNode(src.fset, as.Rhs[0]) == "append(Nodes{}, "+node+".Nodes()...)" {
+				copyVar = id.Name
+			}
+		}
+		if copyVar == "" {
+			over = ".bad " + q(printNode(src.fset, stmts[0]))
+		}
+		stmts = stmts[1:]
+	}
+	if len(stmts) != 1 {
+		return "⟨.bad " + q(fmt.Sprintf("%d statements", len(fd.Body.List))) + ", .bad \"\", []⟩"
+	}
+	rs, ok := stmts[0].(*ast.RangeStmt)
+	if !ok || rs.Value == nil {
+		return "⟨.bad " + q(printNode(src.fset, stmts[0])) + ", .bad \"\", []⟩"
+	}
+	v := printNode(src.fset, rs.Value)
+	x := printNode(src.fset, rs.X)
+	if over == "" {
+		switch {
+		case copyVar != "" && x == copyVar:
+			over = ".copyOfKids"
+		case x == node+".Nodes()":
+			over = ".kidsInPlace"
+		default:
+			over = ".bad " + q("range "+x)
+		}
+	}
+	test, body := ".bad "+q("no test"), []string{}
+	if len(rs.Body.List) == 1 {
+		if is, ok := rs.Body.List[0].(*ast.IfStmt); ok && is.Init == nil && is.Else == nil {
+			if c := printNode(src.fset, is.Cond); c == v+".Tag().Is("+tag+")" {
+				test = ".tagIs"
+			} else {
+				test = ".bad " + q(c)
+			}
+			for _, st := range is.Body.List {
+				if t := printNode(src.fset, st); t == node+".DeleteNode("+v+")" {
+					body = append(body, ".deleteNodeCall")
+				} else {
+					body = append(body, ".bad "+q(t))
+				}
+			}
+		} else {
+			test = ".bad " + q(printNode(src.fset, rs.Body.List[0]))
+		}
+	}
+	return "⟨" + over + ", " + test + ", [" + strings.Join(body, ", ") + "]⟩"
+}
+
 func init() {
 	extractors["CacheEffects"] = func() string {
 		src, err := c13EffParse()
@@ -296,6 +364,7 @@ func init() {
 			fmt.Fprintf(&b, "  (%q, [%s])%s\n", name, strings.Join(types, ", "), sep)
 		}
 		b.WriteString("]\n\n")
+		fmt.Fprintf(&b, "/-- DeleteNodesWithTag(node, tag) (nodes.go): range, test, body of its loop -/\ndef deleteNodesWithTagLoop : TagLoop :=\n  %s\n\n", src.tagLoop())
 		fmt.Fprintf(&b, "/-- IndividualNode.Families() -/\ndef getterFamilies : Getter :=\n  %s\n\n", src.getter("Families"))
 		fmt.Fprintf(&b, "/-- IndividualNode.Spouses() -/\ndef getterSpouses : Getter :=\n  %s\n\n", src.getter("Spouses"))
 		b.WriteString("end Gedcom.Generated\n")
